@@ -181,12 +181,19 @@ func captureOnce(dir string, prev *Image) (*Image, error) {
 			}
 		}
 		var data []byte
-		if isWal(name) {
+		if isWal(name) || strings.HasSuffix(name, ".tmp") {
+			// *.tmp: the preallocated next segment; it may already hold the head records of a cut in progress
 			b, err := ioutil.ReadFile(filepath.Join(dir, name))
 			if err != nil {
 				return nil, err
 			}
 			data = trimZeros(b)
+			if prev != nil {
+				// share the bytes with the previous image when nothing was written
+				if pf := prev.file(name); pf != nil && bytes.Equal(pf.Data, data) {
+					data = pf.Data
+				}
+			}
 			if int64(len(b)) != fi.Size() {
 				// raced with a writer; sizes are re-read below
 				fi2, err := os.Stat(filepath.Join(dir, name))
@@ -415,10 +422,10 @@ type Fault struct {
 	// disk; sectors after the window did not reach disk.
 	N    int    `json:"n,omitempty"`
 	Mask uint32 `json:"mask,omitempty"`
-	Bit  uint   `json:"bit,omitempty"`   // bitflip: bit number within the byte at Off
-	What string `json:"what,omitempty"`  // bitflip: which field (len, type, crc, dlen, payload, pad) of which record type
-	Drop bool   `json:"drop,omitempty"`  // remove the segment files after File (the crash happened before the cut created them)
-	Size int64  `json:"size,omitempty"`  // size File has in the faulted image when not implied (trunc-zero on a segment that the cut shortened)
+	Bit  uint   `json:"bit,omitempty"`  // bitflip: bit number within the byte at Off
+	What string `json:"what,omitempty"` // bitflip: which field (len, type, crc, dlen, payload, pad) of which record type
+	Drop bool   `json:"drop,omitempty"` // remove the segment files after File (the crash happened before the cut created them)
+	Size int64  `json:"size,omitempty"` // size File has in the faulted image when not implied (trunc-zero on a segment that the cut shortened)
 }
 
 func (f Fault) String() string {
